@@ -39,10 +39,16 @@ class Timer:
                 # resolution of the clock still takes one zero-length wait
                 # (the timer fires in this instant instead of never).
                 expiry = self.expire_time
+                if expiry == float("inf"):
+                    # never (a timeout that was doubled until it overflowed):
+                    # sleep, and end quietly should the clock itself get there
+                    yield self.env.timeout(expiry)
+                    return
                 waited = False
                 while not waited or env.now < expiry:
                     before = env.now
-                    yield self.env.timeout(max(expiry - before, 0))
+                    delay = expiry - before
+                    yield self.env.timeout(delay if delay > 0 else 0)
                     waited = True
                     if env.now == before:
                         break
